@@ -36,13 +36,19 @@ def to_lines(recs, typed, rng):
             rec = SC.typed_record(rng, r["tumor"], r["normal"] or None, r["chr"], r["start"], r["stop"])
             out.append(str(rec))
         return out
-    return ["\t".join(["G", r["chr"], str(r["start"]), str(r["stop"]), r["tumor"], r["normal"]]) for r in recs]
+    return ["\t".join(["G", r["chr"], "n/a" if r.get("_unkeyable") else str(r["start"]), str(r["stop"]), r["tumor"], r["normal"]]) for r in recs]
 
 
 def first_descent(recs, order, contigs):
-    for i in range(1, len(recs)):
-        if expected_cmp(norm(recs[i]), norm(recs[i - 1]), order, contigs) < 0:
+    """Position of the first record smaller than the last record before it that has a key (a record whose position text
+    is not a number has none: it is delivered, and neither follows nor breaks the order)."""
+    last = None
+    for i, r in enumerate(recs):
+        if r.get("_unkeyable"):
+            continue
+        if last is not None and expected_cmp(norm(r), norm(last), order, contigs) < 0:
             return i
+        last = r
     return None
 
 
@@ -210,7 +216,18 @@ def gen_file(rng, strangers):
             s0 = rng.choice([1, 10, 100])
             recs.insert(rng.randrange(len(recs) + 1), {"tumor": rng.choice(["T1", "T2"]), "normal": rng.choice(["N1", ""]), "chr": c,
                                                        "start": s0, "stop": s0 + 1, "_typed": typed})
+    if not typed and order in ("Coordinate", "BarcodesAndCoordinate") and recs and rng.random() < 0.35 and "stranger" not in shape:
+        # a line without a key (position text that is not a number) anywhere, in particular right before a descent
+        for _u in range(rng.choice([1, 1, 2])):
+            k = rng.randrange(len(recs) + 1)
+            recs.insert(k, dict(recs[min(k, len(recs) - 1)], _unkeyable=True))
+        shape += "+unkeyable"
     header = SC.route_header_lines(order, contigs or [], typed, rng.random() < 0.5)
+    if order in (None, "Unsorted", "Unknown") and rng.random() < 0.4:
+        # a commented-out declaration (the key of such a pragma starts with '#'): it declares nothing
+        header.insert(rng.randrange(len(header) + 1), rng.choice(["##sort.order Coordinate", "##sort.order BarcodesAndCoordinate", "##contigs X,2,1"]))
+        rng.shuffle(recs)
+        shape += "+commented-declaration"
     col = "\t".join(impl.scheme_by_annotation("gdc-1.0.0").column_names()) if typed else "\t".join(UNTYPED)
     lines = header + [col] + to_lines(recs, typed, rng)
     mode = rng.choice(["Strict", "Lenient", "Silent"]) if typed else rng.choice(["Lenient", "Silent"])
